@@ -442,6 +442,24 @@ fn zone_with_gap_and_fold(acc: &mut Acc) {
                 acc.violation("DateTime<zone>:reading", format!("wall clock of {:?} in the gap/fold zone", ndt), format!("{:?} at {}", wl, off), format!("{:?} at {:?}", dt.naive_local(), dt.offset()));
                 continue;
             }
+            // elapsed-time arithmetic and zone conversion land on the exact instant *with the zone's offset there*
+            for delta in [1i64, -1, 1800, -1800, 3600, -3600, 7200, -7200, 86_400, -86_400, 217 * 86_400, -217 * 86_400] {
+                let td = chrono::TimeDelta::seconds(delta);
+                let want = (u + delta, gf_offset_at(u + delta));
+                acc.transitions += 3;
+                let a = guard(|| dt.checked_add_signed(td).map(|x| (x.naive_utc().and_utc().timestamp(), x.offset().0)));
+                let b = guard(|| {
+                    let x = dt + td;
+                    (x.naive_utc().and_utc().timestamp(), x.offset().0)
+                });
+                let c = guard(|| {
+                    let x = Utc.timestamp_opt(u + delta, nano).unwrap().with_timezone(&tz);
+                    (x.naive_utc().and_utc().timestamp(), x.offset().0)
+                });
+                if a != Ok(Some(want)) || b != Ok(want) || c != Ok(want) {
+                    acc.violation("DateTime<zone>:elapsed-time-and-conversion", format!("[{:?} at offset {}] + {} s [checked_add_signed / operator] and the same instant converted from Utc", wl, off, delta), format!("instant {} at the zone's offset {}", want.0, want.1), format!("{:?} / {:?} / {:?}", a, b, c));
+                }
+            }
             let (wz, ws) = (w.div_euclid(86400), w.rem_euclid(86400) as u32);
             let (y, m, d) = civil_from_days(wz);
             let at = |z: i64, s: u32, n: u32| -> Option<(i64, u32)> { Some((z * 86400 + s as i64, n)) };
